@@ -424,7 +424,7 @@ def prepare(master, tier, cfg):
                 return 1
             if b.origin.startswith("twin"):
                 return 2
-            if stress or ".dup." in b.name or ".exc." in b.name:
+            if stress or ".dup." in b.name or ".exc." in b.name or ".uset." in b.name:
                 return 3
             if b.magic_int in hm:
                 return 4
